@@ -7,7 +7,7 @@
    (the environment's obligation).  It is [false] for the external CtxCancel (trivially enabled
    while the context is not cancelled), WorkerExit, Reject _, CmdStart _, FinishFail _ and
    FinishCancelled _. *)
-From Grog Require Import Graph Walker Walker_proofs.
+From Grog Require Import Graph Walker Walker_proofs Str Tree Tree_proofs.
 
 Theorem C04_no_deadlock : forall g c s,
   topo g -> wf_graph g -> W c >= 1 ->
@@ -66,3 +66,58 @@ Theorem C04_no_race_refuted :
   exists g c evs s, run g c evs = Some s /\ race s = true.
 Proof. exact no_race_refuted. Qed.
 Print Assumptions C04_no_race_refuted.
+
+(* ------------------------------------------------------------------ restore part *)
+(* C04, restore part -- a directory restore never hangs.  Statements only (to be imported / merged by
+   the C04 property file).  load_tree_msg = DirectoryOutputHandler.Load after the tree blob was read. *)
+
+(* The unguarded statement  forall tree cas faults, load_tree ... <> Stuck  is false of the faithful
+   model: a flat directory with one file whose blob is missing from the cache (errChan capacity
+   = len(tree.Children) = 0, one sender, the receiver only runs after waitGroup.Wait). *)
+Theorem C04_restore_terminates_refuted :
+  exists t st,
+    wf_tree t /\
+    match write_tree Hid enc_dir enc_tree t st with
+    | Some (st', ref) =>
+        load_tree Hid enc_dir enc_tree dec_tree max_depth ref (cas_del (Hid (s1 "x")) st') DAbsent = Stuck
+    | None => False
+    end.
+Proof. exact restore_terminates_refuted. Qed.
+Print Assumptions C04_restore_terminates_refuted.
+
+(* guarded: for EVERY tree message and store (any digest function, any serialisation), the call
+   returns when every file blob the message refers to is present ... *)
+Theorem C04_restore_terminates_partial :
+  forall (H : str -> str) (ser_dir : dir_msg -> str) maxdepth m st,
+    blobs_present m st -> load_tree_msg H ser_dir maxdepth m st <> Stuck.
+Proof. exact restore_terminates_blobs_present. Qed.
+Print Assumptions C04_restore_terminates_partial.
+
+(* ... and the exact guard: it hangs iff the recursion itself succeeds and more downloads fail than
+   the tree has distinct sub-directories *)
+Theorem C04_restore_stuck_iff :
+  forall (H : str -> str) (ser_dir : dir_msg -> str) maxdepth m st,
+    load_tree_msg H ser_dir maxdepth m st = Stuck <->
+    exists k, load_failures H ser_dir maxdepth m st = Some k /\ length (tm_children m) < k.
+Proof. exact restore_stuck_iff. Qed.
+Print Assumptions C04_restore_stuck_iff.
+
+(* the Stuck clause is the deadlock of the channel transition system: k senders, capacity
+   len(tree.Children), no receiver before all senders are through *)
+Theorem C04_restore_stuck_is_channel_deadlock :
+  forall (H : str -> str) (ser_dir : dir_msg -> str) maxdepth m st k,
+    load_failures H ser_dir maxdepth m st = Some k ->
+    (load_tree_msg H ser_dir maxdepth m st = Stuck <->
+     chan_released (chan_run k (mkChan k 0 (length (tm_children m)))) = false).
+Proof. exact restore_stuck_is_channel_deadlock. Qed.
+Print Assumptions C04_restore_stuck_is_channel_deadlock.
+
+(* one (empty) sub-directory next to the file is enough capacity: the same fault returns an error *)
+Theorem C04_restore_one_subdir_returns :
+  match write_tree Hid enc_dir enc_tree (Dir [(s1 "a", File (s1 "x") false); (s1 "d", Dir [])]) [] with
+  | Some (st', ref) =>
+      load_tree Hid enc_dir enc_tree dec_tree max_depth ref (cas_del (Hid (s1 "x")) st') DAbsent = Error
+  | None => False
+  end.
+Proof. exact restore_one_subdir_returns. Qed.
+Print Assumptions C04_restore_one_subdir_returns.
